@@ -1,6 +1,6 @@
 (* C21 model driver.
    stdin : "<id>\t f=<flags|-> src=<hex> ast=<compact tree|ERR|HANG> subj=<hex,hex,..> orc=<tables>"
-   stdout: "<id>\t text=<hex|ERR>;m=<bits|->;e=<bits|->"
+   stdout: "<id>\t text=<hex|ERR>;m=<bits|->;e=<bits|->[;skip=nested-repeat-counts]"   (skip: see repeat_weight below)
      text  transpile_text f ast            (what regex.Transpile must return; ERR = it reports failures)
      m     matches_re2 on (transpile f ast)  one 0/1 per subject: Go semantics of the EMITTED term
      e     matches_elk f ast                one 0/1 per subject: what the Elk pattern denotes
@@ -394,6 +394,44 @@ let run_compose (kv : (string * string) list) : string =
     Printf.sprintf "se=%s;cf=%s%s" se cf rel
   with Skip why -> Printf.sprintf "se=-;cf=%s;skip=%s" cf why
 
+(* Cost guard.  The matchers iterate a counted repeat count-many times, so NESTED counts multiply: `((a{1000}){1001}){1,1000}`
+   would run 10^9 rounds per subject (the generator writes such sources; one of them stalled a thorough run for the full
+   timeout).  Go's regexp rejects every pattern whose nested repeat counts multiply to more than 1000 (syntax.repeatIsValid),
+   so the verdict bits of such a pattern are never compared (c21.match needs go=ok).  repeat_weight = the largest product of
+   counts along a nesting path ({n} -> n, {n,m} / {,m} -> m, {n,} -> n; * + ? -> 1), capped; above the bound the driver prints
+   the text and `-` instead of the bits.  Should Go ever accept such a pattern the check reports the missing bits as a broken gate. *)
+let weight_cap = 1_000_000_000
+
+let count_of (ds : coq_Z list) : int =
+  Stdlib.List.fold_left
+    (fun acc z ->
+      let d = int_of_z z - 48 in
+      if d < 0 || d > 9 then acc else min weight_cap ((acc * 10) + d))
+    0 ds
+
+let rec repeat_weight (r : re) : int =
+  match r with
+  | RConcat l -> Stdlib.List.fold_left (fun acc x -> max acc (repeat_weight x)) 1 l
+  | RUnion (a, b) -> max (repeat_weight a) (repeat_weight b)
+  | RGroup (_, Some x) -> repeat_weight x
+  | RQuant (q, _, x) ->
+      let k = match q with QN n -> count_of n | QNM (n, m) -> if m = [] then count_of n else count_of m | _ -> 1 in
+      min weight_cap (max 1 k * repeat_weight x)
+  | _ -> 1
+
+(* the same on the emitted Go term: a count inside an extended-mode comment is in the tree but not in the term *)
+let rec repeat_weight2 (t : re2) : int =
+  match t with
+  | R2Cat l -> Stdlib.List.fold_left (fun acc x -> max acc (repeat_weight2 x)) 1 l
+  | R2Alt (a, b) -> max (repeat_weight2 a) (repeat_weight2 b)
+  | R2Group (_, x) -> repeat_weight2 x
+  | R2Rep (x, q, _) ->
+      let k = match q with QN n -> count_of n | QNM (n, m) -> if m = [] then count_of n else count_of m | _ -> 1 in
+      min weight_cap (max 1 k * repeat_weight2 x)
+  | _ -> 1
+
+let repeat_weight_bound = 4000
+
 let run (input : string) : string =
   let kv = parse_kvs input in
   if field kv "term" <> "" then run_compose kv else
@@ -421,10 +459,14 @@ let run (input : string) : string =
       (match transpile_text f r with
       | None -> "text=ERR;m=-;e=-"
       | Some cps ->
-          let m = String.concat "" (Stdlib.List.map (fun s -> bit (matches_re2 orbit uni posix s t2)) subjects) in
-          let e = String.concat "" (Stdlib.List.map (fun s -> bit (matches_elk orbit uni posix s f r)) subjects) in
-          Printf.sprintf "text=%s;m=%s;e=%s" (utf8_hex (Stdlib.List.map int_of_z cps)) (if m = "" then "-" else m)
-            (if e = "" then "-" else e))
+          (* m is guarded by the weight of the emitted term, e by the weight of the tree (they differ when a count stands in an
+             extended-mode comment; e is compared for patterns without x only) *)
+          let skip_m = repeat_weight2 t2 > repeat_weight_bound and skip_e = repeat_weight r > repeat_weight_bound in
+          let m = if skip_m then "" else String.concat "" (Stdlib.List.map (fun s -> bit (matches_re2 orbit uni posix s t2)) subjects) in
+          let e = if skip_e then "" else String.concat "" (Stdlib.List.map (fun s -> bit (matches_elk orbit uni posix s f r)) subjects) in
+          Printf.sprintf "text=%s;m=%s;e=%s%s" (utf8_hex (Stdlib.List.map int_of_z cps)) (if m = "" then "-" else m)
+            (if e = "" then "-" else e)
+            (if skip_m || skip_e then ";skip=nested-repeat-counts" else ""))
 
 let () =
   Zio.iter_lines (fun line ->
